@@ -46,7 +46,11 @@ some leaf is complex, double precision iff some leaf is) — for EVERY tree, no 
 theorem C01_dtype (A : Op R) : A.dtype = A.dtypeSpec := Op.dtype_eq_dtypeSpec A
 
 omit [CommRing R] [StarRing R] [DecidableEq R] in
-/-- **C01 (result dtype).**  `A @ X`, `X @ A` return an array of dtype
+/-- **C01 (result dtype) — DEFINITIONAL, not in the audited list.**  `Op.mmDtype A x` is DEFINED as
+`promote_types(A.dtype, X.dtype)`; it is not a model of what any `_matmat` does, so this is a lattice
+identity (`promote` of a join = join), a corollary of `C01_dtype`.  The statement about the CODE is
+`C01_result_dtype_model` (recursive model `Op.mmDt`), which is the audited one.  Original text:
+`A @ X`, `X @ A` return an array of dtype
 `promote_types(A.dtype, X.dtype)` (`Op.mmDtype`, what every `_matmat` / `_rmatmat` ends in); that is
 the join of the leaf dtypes of `A` and the operand's dtype (`Op.mmDtypeSpec`): "the promoted dtype
 of the dense computation".  `A.to_dense()` has dtype `A.dtype`, covered by `C01_dtype`. -/
@@ -170,7 +174,6 @@ end C01
 #print axioms C01.C01_matvec_partial
 #print axioms C01.C01_toDense_partial
 #print axioms C01.C01_dtype
-#print axioms C01.C01_result_dtype
 #print axioms C01.C01_result_dtype_model
 #print axioms C01.C01_result_dtype_promote
 #print axioms C01.C01_kronsum_accumulator
